@@ -426,8 +426,20 @@ fn poison(t: &mut Tape, prog: &mut Prog) -> String {
                 "}/*", "pub const X: u32;", "fn f();", "impl Q { fn g(); }", "pub static S: u8;", "type A;", "/*", "*/", "'", "\"", "r#\"", "{", ")",
                 "macro_rules! m { () => {} }", "#![no_std]", "pub trait Tr { const C: u32; fn f(); }", "mod inner;", "use super::*;", "\\", "\u{0}", "pub struct;",
                 "extern \"C\" { fn h(); static Z: u8; type Opaque; }", "pub fn ok() {}", "enum E {}", "union U { a: u8 }", "const _: () = ();",
+                // a syntax error far to the right of multi-byte text on the same line (the error report quotes the line)
+                "pub const GREETING: &str = \"こんにちは世界、これは長い日本語のテキストです。もっと長く、もっと長く\"; pub fn answer(-> u32) { 42 }",
+                "/* ääääääääääääääääääääääääääääääääääääääääääääääääääääääääääääääääääääääää */ pub fn f( { }",
+                "pub const E: &str = \"😀😀😀😀😀😀😀😀😀😀😀😀😀😀😀😀😀😀😀😀😀😀😀😀😀😀😀😀😀😀😀😀😀😀😀😀😀😀😀😀\"; struct",
+                "// ∑∑∑∑∑∑∑∑∑∑∑∑∑∑∑∑∑∑∑∑∑∑∑∑∑∑∑∑∑∑∑∑∑∑∑∑∑∑∑∑∑∑∑∑∑∑∑∑∑∑∑∑∑∑∑∑∑∑∑∑∑∑∑∑∑∑∑∑∑∑\npub fn g() -> { }",
             ];
-            let text = t.pick(&texts).to_string();
+            let mut text = t.pick(&texts).to_string();
+            if t.chance(1, 3) {
+                // multi-byte text from the first column on, then a syntax error 60-120 characters in
+                let ch = *t.pick(&["∑", "ä", "😀", "日"]);
+                let n = 45 + t.below(70) as usize;
+                let tail = *t.pick(&[" fn f( { }", " pub fn answer(-> u32) { 42 }", " struct", " const X: u32 = ;"]);
+                text = if t.chance(1, 2) { format!("/*{}*/{tail}", ch.repeat(n)) } else { format!("const S: &str = \"{}\";{tail}", ch.repeat(n)) };
+            }
             let (p, e) = if t.chance(1, 2) { (Some(text), None) } else { (None, Some(text)) };
             m.backends.push(BackendBlk {
                 name: "rust".into(),
